@@ -68,12 +68,37 @@ func c3RefOf(digest string) string {
 	return "b"
 }
 
+const (
+	c3ConfigMedia = "application/vnd.docker.container.image.v1+json"
+	c3LayerMedia  = "application/vnd.ollama.image.model"
+)
+
+func c3MediaOf(mt int, dflt string) string {
+	if mt > 0 && mt < len(c3MediaTypes) {
+		return c3MediaTypes[mt]
+	}
+	return dflt
+}
+
+// c3MediaIdx: the inverse (-1 = a media type outside the alphabet).
+func c3MediaIdx(s, dflt string) int {
+	if s == dflt {
+		return 0
+	}
+	for k := 1; k < len(c3MediaTypes); k++ {
+		if c3MediaTypes[k] == s {
+			return k
+		}
+	}
+	return -1
+}
+
 func c3ManifestJSON(m c3Manifest) []byte {
 	mm := Manifest{SchemaVersion: 2, MediaType: "application/vnd.docker.distribution.manifest.v2+json"}
-	mm.Config = Layer{MediaType: "application/vnd.docker.container.image.v1+json", Digest: c3DigestString(m.config.ref), Size: m.config.size}
+	mm.Config = Layer{MediaType: c3MediaOf(m.config.mt, c3ConfigMedia), Digest: c3DigestString(m.config.ref), Size: m.config.size}
 	mm.Layers = []Layer{}
 	for _, l := range m.layers {
-		mm.Layers = append(mm.Layers, Layer{MediaType: "application/vnd.ollama.image.model", Digest: c3DigestString(l.ref), Size: l.size})
+		mm.Layers = append(mm.Layers, Layer{MediaType: c3MediaOf(l.mt, c3LayerMedia), Digest: c3DigestString(l.ref), Size: l.size})
 	}
 	b, err := json.Marshal(mm)
 	if err != nil {
@@ -108,6 +133,13 @@ type c3Net struct {
 	valid    map[string]bool
 	issued   int
 	regs     map[string]c3Manifest // two-pull cases: the manifest served per model ("m<id>")
+	rereg    *c3Manifest           // the manifest served in this attempt when the tag was re-published
+	// callerGone: the caller of a single PullModel cancelled at a progress callback.  A download that is started for a
+	// later layer (resume records => no HEAD) is released by Wait at once, but its Run goroutine races with that
+	// release: depending on the scheduler it may get zero, one or all of its requests through first.  The scripted
+	// peer removes the race: a request that arrives after the caller went away is answered only by its context's
+	// cancellation (a slow peer), which is the schedule the model describes ("released at once").
+	callerGone atomic.Bool
 	hook     func(req *http.Request) // called before anything else (may block: scripted interleavings)
 	cancel   context.CancelFunc // cancels the context PullModel was called with
 	dying    atomic.Bool
@@ -118,6 +150,7 @@ func c3NewNet(c *c3Case, a *c3Attempt, models string) *c3Net {
 	n := &c3Net{c: c, models: models, head: map[string][]c3Reply{}, direct: map[string][]c3Reply{},
 		chunks: map[string][][]c3Chunk{}, content: map[string][]byte{}, has: map[string]bool{}}
 	n.ms = append(n.ms, a.ms...)
+	n.rereg = a.reg
 	n.tok = append(n.tok, a.tok...)
 	n.tokShape = append(n.tokShape, a.tokShape...)
 	n.validate, n.valid = a.validate, map[string]bool{}
@@ -211,6 +244,10 @@ func (n *c3Net) RoundTrip(req *http.Request) (*http.Response, error) {
 	if n.dying.Load() {
 		select {} // child mode: the process is about to die of the panic; make no further request
 	}
+	if n.callerGone.Load() && n.regs == nil {
+		<-req.Context().Done()
+		return nil, req.Context().Err()
+	}
 	n.mu.Lock()
 	defer n.mu.Unlock()
 	defer func() {
@@ -266,6 +303,9 @@ func (n *c3Net) RoundTrip(req *http.Request) (*http.Response, error) {
 			}
 			if strings.HasPrefix(arg, "badjson-") {
 				return c3Resp(req, 200, nil, c3BytesBody(c3RawManifest(strings.TrimPrefix(arg, "badjson-"), n.c.reg))), nil
+			}
+			if n.rereg != nil {
+				return c3Resp(req, 200, nil, c3BytesBody(c3ManifestJSON(*n.rereg))), nil
 			}
 			if n.c.rawManifest != "" && n.regs == nil {
 				return c3Resp(req, 200, nil, c3BytesBody(c3RawManifest(n.c.rawManifest, n.c.reg))), nil
@@ -546,10 +586,22 @@ func c3ReadDisk(models string) *c3Disk {
 
 func c3ShowManifest(m *Manifest) string {
 	var ls []string
-	for _, l := range m.Layers {
-		ls = append(ls, fmt.Sprintf("%s/%s", c3Short(c3RefOf(l.Digest)), c3SizeTok(l.Size)))
+	// media types: nothing for the usual one (and for a descriptor without any: wrong-shape manifests), "@k" for the
+	// k-th of the alphabet, "@?" for anything else
+	mt := func(s, dflt string) string {
+		switch k := c3MediaIdx(s, dflt); {
+		case k == 0 || s == "":
+			return ""
+		case k < 0:
+			return "@?"
+		default:
+			return "@" + strconv.Itoa(k)
+		}
 	}
-	return fmt.Sprintf("l(%s)c(%s/%s)", strings.Join(ls, ","), c3Short(c3RefOf(m.Config.Digest)), c3SizeTok(m.Config.Size))
+	for _, l := range m.Layers {
+		ls = append(ls, fmt.Sprintf("%s/%s%s", c3Short(c3RefOf(l.Digest)), c3SizeTok(l.Size), mt(l.MediaType, c3LayerMedia)))
+	}
+	return fmt.Sprintf("l(%s)c(%s/%s%s)", strings.Join(ls, ","), c3Short(c3RefOf(m.Config.Digest)), c3SizeTok(m.Config.Size), mt(m.Config.MediaType, c3ConfigMedia))
 }
 
 func c3Short(ref string) string {
@@ -753,6 +805,7 @@ func c3RunAttempt(t *testing.T, c *c3Case, a *c3Attempt, models string, countOut
 				case r.Status == "pulling manifest" && a.cancel == "start",
 					r.Status == "writing manifest" && a.cancel == "writing",
 					r.Status == "verifying sha256 digest" && a.cancel == fmt.Sprintf("verifying %d", verifying):
+					net.callerGone.Store(true)
 					cancel()
 				}
 				if r.Status == "verifying sha256 digest" {
